@@ -117,6 +117,7 @@ bool BuildLog::RecordCommand(Edge* edge, int start_time, int end_time,
       if (fflush(log_file_) != 0) {
           return false;
       }
+      NINJA_VERIF_POINT("log.record.entry");
     }
   }
   return true;
@@ -374,6 +375,7 @@ bool BuildLog::Recompact(const std::string& path, const BuildLogUser& user,
 
   fclose(f);
 
+  NINJA_VERIF_POINT("log.recompact.pre_replace");
   return ReplaceContent(path, temp_path, err);
 }
 
@@ -422,5 +424,6 @@ bool BuildLog::Restat(const StringPiece path,
 
   fclose(f);
 
+  NINJA_VERIF_POINT("log.restat.pre_replace");
   return ReplaceContent(path.AsString(), temp_path, err);
 }
